@@ -161,3 +161,37 @@ def test_step_cap_is_a_violation_not_a_hang():
             pool.map(simhelpers.task_slow_write, [(j, 50) for j in range(4)])
     sched.shutdown()
     assert not alive(sched)
+
+
+def test_function_attributes_are_per_process():
+    for seed in range(40):
+        ch, tr, st, sched, mp = mk(seed)
+        n = 8
+        shared = real_mp.RawArray(ctypes.c_double, n)
+        try:
+            with mp.Pool(processes=3, initializer=simhelpers.init_set_global, initargs=("w", shared, np.zeros(n))) as pool:
+                got = list(pool.imap_unordered(simhelpers.task_scratch, range(n)))
+        finally:
+            sched.shutdown()
+        assert sorted(got) == list(range(n))
+        assert np.frombuffer(shared).tolist() == [10.0 * j + 2 for j in range(n)]  # no cross-talk through the attribute
+        assert "buf" not in simhelpers.task_scratch.__dict__  # the parent never set it
+
+
+def test_mutable_defaults_are_per_process():
+    totals = set()
+    for seed in range(40):
+        ch, tr, st, sched, mp = mk(seed)
+        n = 9
+        try:
+            with mp.Pool(processes=3) as pool:
+                got = list(pool.imap_unordered(simhelpers.task_count, range(n)))
+        finally:
+            sched.shutdown()
+        assert sorted(j for j, _ in got) == list(range(n))
+        counts = sorted(c for _, c in got)
+        # each worker counts its own tasks from 1: the multiset of counts is a union of 1..k_w with sum k_w = n
+        assert counts.count(1) >= 1 and sum(1 for c in counts if c == 1) <= 3
+        assert simhelpers.task_count.__defaults__ == ([],)  # the parent's default is untouched
+        totals.add(tuple(counts))
+    assert len(totals) > 1
